@@ -21,6 +21,10 @@ pub fn replay(lines: &[Value], rep: &mut Report) {
             gs1_case(c, &line, indomain, rep);
             continue;
         }
+        if kind == "gs3" {
+            gs3_case(c, &line, indomain, rep);
+            continue;
+        }
         // the three clients share the text grammar; the player line is the Quake 2 / 3 one
         let clients: &[&str] = if kind == "kv" { &["one", "two", "three"] } else { &["two", "three"] };
         for cl in clients {
@@ -124,5 +128,40 @@ fn gs1_case(c: &Value, line: &str, indomain: bool, rep: &mut Report) {
     }
     if *v != Value::Object(want) {
         rep.violation("C04", "gamespy 1 variables differ from the pairs sent", json!({"kind":"quaketext","case":c,"got":v}));
+    }
+}
+
+
+/// the NUL-separated variables of a GameSpy 3 reply ("0" in the model is the NUL byte), through the raw-variables query (C04)
+fn gs3_case(c: &Value, line: &str, indomain: bool, rep: &mut Report) {
+    let nul = |s: &str| s.replace('0', "\0");
+    let mut d = vec![0u8, 0, 0, 0, 1];
+    d.extend(b"splitnum\0\x80\0");
+    d.extend(b"hostname\0h\0");
+    d.extend(nul(line).as_bytes());
+    d.push(0);
+    let script = ScriptJ::udp(vec![vec![crate::proto::gs3_handshake_reply(77)], vec![d]]);
+    let a = addr(27015);
+    let rec = run_call(&script, DEFAULT_MAX_OPS, || gamedig::protocols::gamespy::three::query_vars(&a, timeouts(0)));
+    rep.evaluations += 1;
+    let case = json!({"kind":"quaketext","case":c,"client":"gs3vars","script":script});
+    match &rec.outcome {
+        Outcome::Panic { msg } => return rep.violation("C01", &format!("gamespy 3 variables: panic {}", first_line(msg)), case),
+        Outcome::Hang => return rep.violation("C01", "gamespy 3 variables: does not return", case),
+        _ => {}
+    }
+    if !indomain {
+        return;
+    }
+    let Outcome::Ok(v) = &rec.outcome else {
+        return rep.violation("C04", &format!("gamespy 3 variables inside the grammar are rejected with {}", rec.outcome.class()), case);
+    };
+    let mut want = serde_json::Map::new();
+    want.insert("hostname".into(), json!("h"));
+    for p in c["expected"].as_array().unwrap() {
+        want.insert(text_of(&p[0]), json!(text_of(&p[1])));
+    }
+    if *v != Value::Object(want) {
+        rep.violation("C04", "gamespy 3 variables differ from the pairs sent", json!({"kind":"quaketext","case":c,"got":v}));
     }
 }
